@@ -11,6 +11,7 @@ CONSTANTS
   MaxCells = 1000000
   MaxMerges = 1000000
   MaxSheets = 1000000
+  KindSeq = {}
   Rots = {}
   Layouts = {}
 INVARIANTS PlacedByRef FunctionLike MergeBlank
